@@ -22,6 +22,8 @@
 #include <dirent.h>
 #include <fcntl.h>
 #include <sys/stat.h>
+#include <sys/wait.h>
+#include <sys/prctl.h>
 #include "flatcc/flatcc.h"
 #include "hx.h"
 
@@ -141,7 +143,8 @@ int main(void)
     while ((line = hx_getline())) {
         flatcc_options_t opts;
         flatcc_context_t ctx;
-        int is_buf, genmode, rc = -99, grc = -99, nfiles, leak = 0, null_opts = 0;
+        int is_buf, is_fifo = 0, genmode, rc = -99, grc = -99, nfiles, leak = 0, null_opts = 0;
+        pid_t fifo_child = -1; const char *fifo_path = 0;
         uint8_t *data = 0; size_t len = 0; char *zbuf = 0;
         const char *outdir, *name;
         char outprefix[1100];
@@ -151,7 +154,32 @@ int main(void)
         nt = hx_split(line, tok, 7);
         if (nt == 0) continue;
         is_buf = !strcmp(tok[0], "buf");
-        if ((is_buf && nt != 6) || (!is_buf && (strcmp(tok[0], "file") || nt != 5))) { fprintf(proto, "BAD\n"); fflush(proto); continue; }
+        is_fifo = !strcmp(tok[0], "fifo");       /* fifo <opts> <gen> <outdir> <root path> <fifo path> <hex>: the file at <fifo path> is a non-seekable FIFO */
+        if (is_fifo) {
+            if (nt != 7) { fprintf(proto, "BAD\n"); fflush(proto); continue; }
+            fifo_path = tok[5];
+            unlink(fifo_path);
+            if (mkfifo(fifo_path, 0600)) { fprintf(proto, "BAD mkfifo\n"); fflush(proto); continue; }
+            fflush(proto); fflush(stdout);
+            fifo_child = fork();
+            if (fifo_child == 0) {
+                uint8_t *d; size_t n = hx_decode(tok[6], &d), w; int k, fd;
+                /* the writer must not outlive a crashing parent nor keep the protocol pipes open */
+                prctl(PR_SET_PDEATHSIG, SIGKILL);
+                for (fd = 0; fd < 64; ++fd) close(fd);
+                signal(SIGALRM, SIG_DFL);
+                alarm(30);
+                for (k = 0; k < 8; ++k) {            /* serve every open of the reader */
+                    fd = open(fifo_path, O_WRONLY);
+                    if (fd < 0) _exit(0);
+                    for (w = 0; w < n; ) { ssize_t r = write(fd, d + w, n - w); if (r <= 0) break; w += (size_t)r; }
+                    close(fd);
+                    usleep(20000);
+                }
+                _exit(0);
+            }
+        }
+        if ((is_buf && nt != 6) || (!is_buf && !is_fifo && (strcmp(tok[0], "file") || nt != 5))) { fprintf(proto, "BAD\n"); fflush(proto); continue; }
         nstr = 0;
         flatcc_init_options(&opts);
         opts.inpath_count = 0; opts.inpaths = 0;
@@ -181,6 +209,7 @@ int main(void)
             /* refused option set: nothing may stay allocated and a diagnostic must have been delivered */
             alarm(0);
             free(zbuf);
+            if (is_fifo) { kill(fifo_child, SIGKILL); waitpid(fifo_child, 0, 0); unlink(fifo_path); }
 #ifdef HAVE_LSAN
             leak = __lsan_do_recoverable_leak_check() ? 1 : 0;
 #endif
@@ -194,6 +223,7 @@ int main(void)
         }
         flatcc_destroy_context(ctx);
         alarm(0);
+        if (is_fifo) { kill(fifo_child, SIGKILL); waitpid(fifo_child, 0, 0); unlink(fifo_path); }
         free(zbuf);
         fflush(stdout);
         so = 0;
